@@ -1,3 +1,3 @@
 From Coq Require Import Extraction ExtrOcamlBasic.
 From PV Require Import Extract.Dispatch.
-Extraction "model.ml" run.
+Extraction "model.ml" dispatch.
